@@ -19,18 +19,23 @@
   comparisons involving NaN.
   * `condition_parse_correct` (Lemmas/ParseCond, mutual induction over derivations against the well-founded
     recursive-descent model) — for EVERY derivation of
-        X ::= Y (or Y)*     Y ::= Z (and Z)*     Z ::= not* ( atom | "(" X ")" )
+        X ::= Y (or Y)*     Y ::= Z (and Z)*     Z ::= not* ( atom | "(" X ")" | "{" X "}" )
     parsing its token sequence yields the tree the derivation denotes and leaves exactly the tokens that
     follow: AND binds tighter than OR, brackets override, a run of prefix NOTs negates by parity (pushed
     through the bracket by De Morgan).  `comparison_is_atom` shows that `column op literal` is an atom;
     `and_binds_tighter`, `brackets_override_precedence`, `not_bracket_is_de_morgan` are instances on
     comparisons (and witnesses that the hypotheses can be met).
-  Curly brackets and the infix forms `not like` / `not between` inside formulas are covered by the
-  correspondence and the set-algebra oracle only.
+    The infix forms are atoms too (`infix_not_is_atom`, `between_forms_are_atoms`, from C02's
+    `comparison_of_expressions` / `between_is_atom`): `e1 not like e2`, `e1 not between lo and hi`, with any
+    number of prefix NOTs in front, anywhere in a formula — an infix NOT negates the operator (resp. turns the
+    BETWEEN conjunction into its De Morgan dual), prefix NOTs then negate by parity.
+    Curly brackets are part of the grammar (`Z.cparen`, and `F.cparen` in arithmetic operands): `curly_is_round`,
+    `curly_brackets_override_precedence`.
 -/
 import Fsel.Model.Eval
 import Fsel.Lemmas.ParseCond
 import Fsel.Props.C15
+import Fsel.Props.C02
 
 namespace Fsel.C03
 open Fsel
@@ -359,6 +364,24 @@ theorem brackets_override_precedence (ha : AtomCond bs a x) (hb : AtomCond bs b 
         exact ⟨⟨⟨⟨⟨ha, trivial⟩, ⟨hb, trivial⟩, trivial⟩, by simpa using hbool⟩, hc, trivial⟩, trivial⟩) rest hrest
   simpa [bracketOrAnd, X.tree, Y.tree, Z.tree, XTail.accum, YTail.accum, parity] using h.1
 
+/-- `{ a or b } and c`: curly brackets group exactly like round ones -/
+def curlyOrAnd : X := .mk (.mk (.cparen 0 (.mk (.mk (.atom 0 a x) .nil) (.cons (.mk (.atom 0 b y) .nil) .nil))) (.cons (.atom 0 c z) .nil)) .nil
+
+theorem curlyOrAnd_toks : (curlyOrAnd a b c x y z).toks = .copen :: (a ++ .or_ :: b ++ [.cclose]) ++ .and_ :: c := by
+  simp [curlyOrAnd, X.toks, Y.toks, Z.toks, XTail.toks, YTail.toks, nots]
+
+/-- **round = curly** for conditions: the grammar has both bracket kinds (`Z.paren`, `Z.cparen`), they denote
+    the same tree, and `condition_parse_correct` covers derivations that use either, nested in any way -/
+theorem curly_is_round (k : Nat) (f : X) : (Z.cparen k f).tree = (Z.paren k f).tree := rfl
+
+theorem curly_brackets_override_precedence (ha : AtomCond bs a x) (hb : AtomCond bs b y) (hc : AtomCond bs c z)
+    (hbool : boolShorthand bs (.logic x .Or y) = .logic x .Or y) (rest : List Lexem) (hrest : StopOr rest) :
+    (parseExpr bs ((curlyOrAnd a b c x y z).toks ++ rest)).res = .ok (.logic (.logic x .Or y) .And z) := by
+  have h := condition_parse_correct bs (curlyOrAnd a b c x y z)
+    (by simp only [curlyOrAnd, X.WF, Y.WF, Z.WF, XTail.WF, YTail.WF, X.tree, Y.tree, Z.tree, XTail.accum, YTail.accum, parity]
+        exact ⟨⟨⟨⟨⟨ha, trivial⟩, ⟨hb, trivial⟩, trivial⟩, by simpa using hbool⟩, hc, trivial⟩, trivial⟩) rest hrest
+  simpa [curlyOrAnd, X.tree, Y.tree, Z.tree, XTail.accum, YTail.accum, parity] using h.1
+
 /-- NOT in front of a bracket is pushed through it by De Morgan: `not ( a and b )` is `(not a) or (not b)` -/
 theorem not_bracket_is_de_morgan (ha : AtomCond bs a x) (hb : AtomCond bs b y)
     (hbool : boolShorthand bs (.logic x .And y) = .logic x .And y) (rest : List Lexem) (hrest : StopOr rest) :
@@ -384,5 +407,28 @@ example : (parseExpr true [.raw (ofS "size"), .op ['>'], .raw ['1'], .or_, .raw 
       [Lexem.raw (ofS "name"), .op ['='], .raw ['x']] (.cmp (.field false .Size) .Gt (.val false ['1']))
       (.cmp (.field false .Size) .Lt (.val false ['5'])) (.cmp (.field false .Name) .Eq (.val false ['x']))).toks ++ []) (by simp [orAnd_toks])]
   exact h
+
+open ParseL ParseC in
+/-- `e1 not OP e2` (e.g. `name not like '%.rs'`) is an atomic condition denoting the negated operator; with
+    `k` prefix NOTs in front the result is negated again by parity (`AtomCond` quantifies over `k`) -/
+theorem infix_not_is_atom (bs : Bool) (e1 e2 : E) (h1 : e1.WF bs) (h2 : e2.WF bs)
+    (hne : e1.toks ≠ []) (hn : e1.toks.head? ≠ some .not_)
+    (o : Str) (op : Op) (ho : Op.ofStr? o = some op) (hnb : (lowerStr o == ofS "between") = false) :
+    AtomCond bs (e1.toks ++ (.not_ :: .op o :: e2.toks)) (.cmp e1.tree op.negate e2.tree) := by
+  have h := C02.comparison_of_expressions bs e1 e2 h1 h2 hne hn o op ho hnb true
+  simpa [C02.infixNotToks] using h
+
+open ParseL ParseC in
+/-- `x between lo and hi` and `x not between lo and hi` are atomic conditions denoting
+    `x >= lo and x <= hi` and its De Morgan dual `x < lo or x > hi` -/
+theorem between_forms_are_atoms (bs : Bool) (x lo hi : E) (hx : x.WF bs) (hlo : lo.WF bs) (hhi : hi.WF bs)
+    (hne : x.toks ≠ []) (hn : x.toks.head? ≠ some .not_) (o : Str) (hb : (lowerStr o == ofS "between") = true) :
+    AtomCond bs (x.toks ++ (.op o :: (lo.toks ++ .and_ :: hi.toks))) (between x.tree lo.tree hi.tree) ∧
+    AtomCond bs (x.toks ++ (.not_ :: .op o :: (lo.toks ++ .and_ :: hi.toks))) (notBetween x.tree lo.tree hi.tree) := by
+  have a := C02.between_is_atom bs x lo hi hx hlo hhi hne hn o hb false
+  have b := C02.between_is_atom bs x lo hi hx hlo hhi hne hn o hb true
+  constructor
+  · simpa [C02.infixNotToks, C02.betweenTree, between] using a
+  · simpa [C02.infixNotToks, C02.notBetweenTree, notBetween] using b
 
 end Fsel.C03
